@@ -1,4 +1,5 @@
 import ZI.WorldModel
+import ZI.Props.C19Hist
 namespace Drv.World
 open ZI.World ZI.Classes ZI.Registry ZI.Graph
 def nums (s : String) : List Nat := (s.splitOn " ").filterMap String.toNat?
@@ -32,83 +33,152 @@ def key (u : U) (t : String) : U × Nat :=
     | _ => (u, 0)
 def keys (u : U) (s : String) : U × List Nat :=
   ((s.splitOn " ").filter (· != "")).foldl (fun (acc : U × List Nat) t => let (u', k) := key acc.1 t; (u', acc.2 ++ [k])) (u, [])
-partial def loop (h : IO.FS.Stream) (u : U) : IO Unit := do
+
+/-! ### lock-step shadow: the proved declarations model with `super` queries (`ZI.C19`, on `ZI.Classes2`) and the abstract
+specification state of `C01_exact` / `C19_super`.  Registry operations do not concern it; class-level operations and every
+key token that makes the real code create a specification are mirrored.  Operations outside the theorems' histories
+(interface re-basing, a class specification among the declared ones, instance-level implementer declarations) switch the
+well-formedness flag off for the rest of the script. -/
+structure Sh where
+  u19 : ZI.C19.W19
+  σ : ZI.C01.Spec
+  wf : Bool
+  nsuper : Nat := 0
+  nsuperWf : Nat := 0
+
+def Sh.init (fixed : Bool) : Sh := { u19 := { w := ZI.Classes2.init fixed, superCache := [] }, σ := ZI.C01.Spec.init, wf := fixed }
+def Sh.step (sh : Sh) (op : ZI.C19.Op19) : Sh :=
+  { sh with u19 := ZI.C19.stepU F sh.u19 op, σ := ZI.C19.specStep19 sh.σ op, wf := sh.wf && decide (ZI.C19.WFop19 sh.σ op) }
+def Sh.keyTok (sh : Sh) (t : String) : Sh :=
+  let n : String := (t.drop 1).toString
+  if t == "e" then sh.step (.base (.qImpl 0))
+  else if t.startsWith "i" then sh
+  else if t.startsWith "c" then sh.step (.base (.qImpl n.toNat!))
+  else if t.startsWith "o" then sh.step (.base (.qProv n.toNat!))
+  else match n.splitOn "." with
+    | [c, o] => sh.step (.qSuper c.toNat! o.toNat!)
+    | _ => sh
+def Sh.keyToks (sh : Sh) (s : String) : Sh := ((s.splitOn " ").filter (· != "")).foldl Sh.keyTok sh
+def bs0 (s : String) : List Nat := if (nums s).isEmpty then [0] else nums s
+def Sh.line (sh : Sh) (f : List String) : Sh :=
+  match f with
+  | ["resetfixed", _] => Sh.init true
+  | ["reset", _] => Sh.init false
+  | ["iface", s, bs] => sh.step (.base (.iface s.toNat! (bs0 bs)))
+  | ["isetbases", _, _] => { sh with wf := false }
+  | ["class", c, bs] => sh.step (.base (.cls c.toNat! (bs0 bs)))
+  | ["class", c, bs, _] => sh.step (.base (.cls c.toNat! (bs0 bs)))
+  | ["idecl", _, _] => sh
+  | ["inst", o, c] => sh.step (.base (.inst o.toNat! c.toNat!))
+  | ["first", c, xs] => sh.step (.base (.classImplementsFirst c.toNat! (nums xs).head!))
+  | ["addspec", _, _] => { sh with wf := false }
+  | ["add", c, xs] => sh.step (.base (.classImplements c.toNat! (nums xs)))
+  | ["only", c, xs] => sh.step (.base (.classImplementsOnly c.toNat! (nums xs)))
+  | ["dp", o, xs] => sh.step (.base (.directlyProvides o.toNat! (nums xs)))
+  | ["also", o, xs] => sh.step (.base (.alsoProvides o.toNat! (nums xs)))
+  | ["nl", o, x] => sh.step (.base (.noLongerProvides o.toNat! x.toNat!))
+  | [cmd, _, req, _, _, _] => if cmd == "reg" || cmd == "unreg" || cmd == "qadapter" then sh.keyToks req else sh
+  | [cmd, _, req, _, _] => if ["unreg", "unsub", "lookup1", "sub", "lookup"].contains cmd then sh.keyToks req else sh
+  | [cmd, _, req, _] => if ["names", "subscribers", "lookupAll", "subs"].contains cmd then sh.keyToks req else sh
+  | ["prov", t] => sh.keyTok t
+  | _ => sh
+
+/-- for `prov|s<C>.<O>`: compare the validated model's answer with the proved model's and (inside the theorem's guards) with
+the statement of `C19_super`: exactly the interfaces implemented by the classes after `C` in the MRO of `type(O)` -/
+def superFlags (sh : Sh) (t : String) (ans : List Nat) : Sh × String :=
+  if !(t.startsWith "s") then (sh, "") else
+  match ((t.drop 1).toString).splitOn "." with
+  | [c, o] =>
+    let c := c.toNat!; let o := o.toNat!
+    let r := ZI.C19.superSpec2 F sh.u19 c o
+    let ans2 := (r.1.w.g.sro r.2).filter ZI.Classes2.isIface
+    let rem := ZI.World.remainder (ZI.C19.smro sh.σ (sh.σ.clsOf o)) c
+    let specOk := sh.σ.ifaces.all fun i => ans.contains i == (i == 0 || rem.any fun d => ZI.C01.implB sh.σ d i)
+    ({ sh with nsuper := sh.nsuper + 1, nsuperWf := sh.nsuperWf + (if sh.wf then 1 else 0) },
+     (if sh.wf && ans2 != ans then " SUPERDIFF2" else "") ++ (if sh.wf && !specOk then " SUPERSPECDIFF" else ""))
+  | _ => (sh, "")
+
+partial def loop (h : IO.FS.Stream) (u : U) (sh0 : Sh) : IO Unit := do
   let line ← h.getLine
   if line.isEmpty then return ()
   let f := (line.trimAscii.toString.splitOn "|").map fun s => s.trimAscii.toString
+  let sh := sh0.line f
   match f with
-  | ["resetfixed", v] => IO.println "ok"; loop h (init true (v == "1"))
-  | ["reset", v] => IO.println "ok"; loop h (init false (v == "1"))
-  | ["iface", s, bs] => IO.println "ok"; loop h (declOp u fun w => { w with g := newNode w.g s.toNat! (if (nums bs).isEmpty then [0] else nums bs) })
-  | ["isetbases", s, bs] => IO.println "ok"; loop h (declOp u fun w => { w with g := ZI.Graph.setBases w.g s.toNat! (if (nums bs).isEmpty then [0] else nums bs) })
-  | ["class", c, bs] => IO.println "ok"; loop h { u with cw := u.cw.setCls c.toNat! { pyBases := if (nums bs).isEmpty then [0] else nums bs } }
-  | ["class", c, bs, _] => IO.println "ok"; loop h { u with cw := u.cw.setCls c.toNat! { pyBases := if (nums bs).isEmpty then [0] else nums bs } }
-  | ["idecl", _, _] => IO.println "ok"; loop h u      -- implementer(I)(instance): declares what the instance's *products* implement; nothing any query here sees
-  | ["inst", o, c] => IO.println "ok"; loop h { u with cw := u.cw.setInst o.toNat! { cls := c.toNat! } }
-  | ["first", c, xs] => IO.println "ok"; loop h (declOp u fun w => classImplementsFirst F w c.toNat! (nums xs).head!)
+  | ["resetfixed", v] => IO.println "ok"; loop h (init true (v == "1")) sh
+  | ["reset", v] => IO.println "ok"; loop h (init false (v == "1")) sh
+  | ["iface", s, bs] => IO.println "ok"; loop h (declOp u fun w => { w with g := newNode w.g s.toNat! (if (nums bs).isEmpty then [0] else nums bs) }) sh
+  | ["isetbases", s, bs] => IO.println "ok"; loop h (declOp u fun w => { w with g := ZI.Graph.setBases w.g s.toNat! (if (nums bs).isEmpty then [0] else nums bs) }) sh
+  | ["class", c, bs] => IO.println "ok"; loop h { u with cw := u.cw.setCls c.toNat! { pyBases := if (nums bs).isEmpty then [0] else nums bs } } sh
+  | ["class", c, bs, _] => IO.println "ok"; loop h { u with cw := u.cw.setCls c.toNat! { pyBases := if (nums bs).isEmpty then [0] else nums bs } } sh
+  | ["idecl", _, _] => IO.println "ok"; loop h u sh      -- implementer(I)(instance): declares what the instance's *products* implement; nothing any query here sees
+  | ["inst", o, c] => IO.println "ok"; loop h { u with cw := u.cw.setInst o.toNat! { cls := c.toNat! } } sh
+  | ["first", c, xs] => IO.println "ok"; loop h (declOp u fun w => classImplementsFirst F w c.toNat! (nums xs).head!) sh
   | ["addspec", c, hc] =>          -- classImplements(C, implementedBy(H)): another class's specification among the declared ones
-      IO.println "ok"; loop h (declOp u fun w => let (w, hs) := implementedBy F w hc.toNat!; classImplements F w c.toNat! [hs])
-  | ["add", c, xs] => IO.println "ok"; loop h (declOp u fun w => classImplements F w c.toNat! (nums xs))
-  | ["only", c, xs] => IO.println "ok"; loop h (declOp u fun w => classImplementsOnly F w c.toNat! (nums xs))
-  | ["dp", o, xs] => IO.println "ok"; loop h (declOp u fun w => directlyProvides F w o.toNat! (nums xs))
-  | ["also", o, xs] => IO.println "ok"; loop h (declOp u fun w => alsoProvides F w o.toNat! (nums xs))
+      IO.println "ok"; loop h (declOp u fun w => let (w, hs) := implementedBy F w hc.toNat!; classImplements F w c.toNat! [hs]) sh
+  | ["add", c, xs] => IO.println "ok"; loop h (declOp u fun w => classImplements F w c.toNat! (nums xs)) sh
+  | ["only", c, xs] => IO.println "ok"; loop h (declOp u fun w => classImplementsOnly F w c.toNat! (nums xs)) sh
+  | ["dp", o, xs] => IO.println "ok"; loop h (declOp u fun w => directlyProvides F w o.toNat! (nums xs)) sh
+  | ["also", o, xs] => IO.println "ok"; loop h (declOp u fun w => alsoProvides F w o.toNat! (nums xs)) sh
   | ["nl", o, x] =>
       let before := u.cw.g
       let (cw, err) := noLongerProvides F (collect { u.cw with pinned := regRefs u }) o.toNat! x.toNat!
-      IO.println (if err then "ValueError" else "ok"); loop h (notify before { u with cw := cw }).sync
-  | ["newreg", r, bs] => IO.println "ok"; loop h (regOp u fun w => ZI.Registry.setBases 32 (w.setReg r.toNat! {}) r.toNat! (nums bs))
+      IO.println (if err then "ValueError" else "ok"); loop h (notify before { u with cw := cw }).sync sh
+  | ["newreg", r, bs] => IO.println "ok"; loop h (regOp u fun w => ZI.Registry.setBases 32 (w.setReg r.toNat! {}) r.toNat! (nums bs)) sh
   | ["reg", r, req, p, name, v] =>
       let (u, ks) := keys u req
-      IO.println "ok"; loop h (regOp u fun w => register 32 w r.toNat! (ks.map some) p.toNat! name (val v).get!)
+      IO.println "ok"; loop h (regOp u fun w => register 32 w r.toNat! (ks.map some) p.toNat! name (val v).get!) sh
   | ["unreg", r, req, p, name] =>
       let (u, ks) := keys u req
-      IO.println "ok"; loop h (regOp u fun w => unregister 32 w r.toNat! (ks.map some) p.toNat! name none)
+      IO.println "ok"; loop h (regOp u fun w => unregister 32 w r.toNat! (ks.map some) p.toNat! name none) sh
   | ["unreg", r, req, p, name, v] =>
       let (u, ks) := keys u req
-      IO.println "ok"; loop h (regOp u fun w => unregister 32 w r.toNat! (ks.map some) p.toNat! name (val v))
+      IO.println "ok"; loop h (regOp u fun w => unregister 32 w r.toNat! (ks.map some) p.toNat! name (val v)) sh
   | ["unsub", r, req, p, v] =>
       let (u, ks) := keys u req
-      IO.println "ok"; loop h (regOp u fun w => unsubscribe 32 w r.toNat! (ks.map some) (if p == "N" then none else some p.toNat!) (val v))
-  | ["rbases", r, bs] => IO.println "ok"; loop h (regOp u fun w => ZI.Registry.setBases 32 w r.toNat! (nums bs))
-  | ["rebuild", r] => IO.println "ok"; loop h (regOp u fun w => ZI.Registry.rebuild 32 w r.toNat!)
+      IO.println "ok"; loop h (regOp u fun w => unsubscribe 32 w r.toNat! (ks.map some) (if p == "N" then none else some p.toNat!) (val v)) sh
+  | ["rbases", r, bs] => IO.println "ok"; loop h (regOp u fun w => ZI.Registry.setBases 32 w r.toNat! (nums bs)) sh
+  | ["rebuild", r] => IO.println "ok"; loop h (regOp u fun w => ZI.Registry.rebuild 32 w r.toNat!) sh
   | ["lookup1", r, req, p, name] =>
       let (u, ks) := keys u req
       let (u, a) := uLookup u r.toNat! ks p.toNat! name
-      IO.println (shwV a); loop h u
+      IO.println (shwV a); loop h u sh
   | ["names", r, req, p] =>
       let (u, ks) := keys u req
       let (u, a) := uLookupAll u r.toNat! ks p.toNat!
-      IO.println (" ".intercalate (sortS (a.map fun p => p.1))); loop h u
+      IO.println (" ".intercalate (sortS (a.map fun p => p.1))); loop h u sh
   | ["qadapter", r, req, p, name, _] =>       -- queryAdapter / adapter_hook / queryMultiAdapter on objects (incl. super proxies)
       let (u, ks) := keys u req
       let (u, a) := uLookup u r.toNat! ks p.toNat! name
       let os := " ".intercalate (((req.splitOn " ").filter (· != "")).map objOf)
-      IO.println (match a with | some v => if retNone v then "default" else s!"res {v.ident} {os}" | none => "default"); loop h u
+      IO.println (match a with | some v => if retNone v then "default" else s!"res {v.ident} {os}" | none => "default"); loop h u sh
   | ["subscribers", r, req, p] =>
       let (u, ks) := keys u req
       let (u, a) := uSubscriptions u r.toNat! ks (some p.toNat!)
-      IO.println (" ".intercalate ((a.filter fun v => !retNone v).map fun v => toString v.ident)); loop h u
+      IO.println (" ".intercalate ((a.filter fun v => !retNone v).map fun v => toString v.ident)); loop h u sh
   | ["sub", r, req, p, v] =>
       let (u, ks) := keys u req
-      IO.println "ok"; loop h (regOp u fun w => subscribe 32 w r.toNat! (ks.map some) (if p == "N" then none else some p.toNat!) (val v).get!)
+      IO.println "ok"; loop h (regOp u fun w => subscribe 32 w r.toNat! (ks.map some) (if p == "N" then none else some p.toNat!) (val v).get!) sh
   | ["lookup", r, req, p, name] =>
       let (u, ks) := keys u req
       let (u, a) := uLookup u r.toNat! ks p.toNat! name
-      IO.println (shwV a); loop h u
+      IO.println (shwV a); loop h u sh
   | ["lookupAll", r, req, p] =>
       let (u, ks) := keys u req
       let (u, a) := uLookupAll u r.toNat! ks p.toNat!
       let srt := a.toArray.qsort (fun x y => x.1 < y.1) |>.toList
-      IO.println (" ".intercalate (srt.map fun p => s!"{p.1}={p.2.ident}")); loop h u
+      IO.println (" ".intercalate (srt.map fun p => s!"{p.1}={p.2.ident}")); loop h u sh
   | ["subs", r, req, p] =>
       let (u, ks) := keys u req
       let (u, a) := uSubscriptions u r.toNat! ks (if p == "N" then none else some p.toNat!)
-      IO.println (" ".intercalate (a.map fun v => toString v.ident)); loop h u
+      IO.println (" ".intercalate (a.map fun v => toString v.ident)); loop h u sh
   | ["prov", t] =>
       let (u, s) := key u t
-      IO.println (" ".intercalate (((u.cw.sro s).filter isIface).map toString)); loop h u
+      let ans := (u.cw.sro s).filter isIface
+      let (sh, fl) := superFlags sh t ans
+      IO.println (" ".intercalate (ans.map toString) ++ fl); loop h u sh
+  | ["wf"] => IO.println s!"wf {sh.wf} {sh.nsuperWf} {sh.nsuper}"; loop h u sh
   | ["dbg"] =>
-      IO.println s!"refs={regRefs u} req={u.required} super={u.superCache} caches={u.rw.regs.map fun p => (p.1, p.2.cache.map (·.1.2.2), p.2.mcache.map (·.1.2), p.2.scache.map (·.1.2))}"; loop h u
-  | _ => IO.println s!"bad {f}"; loop h u
-def main : IO Unit := do loop (← IO.getStdin) (init false false)
+      IO.println s!"refs={regRefs u} req={u.required} super={u.superCache} caches={u.rw.regs.map fun p => (p.1, p.2.cache.map (·.1.2.2), p.2.mcache.map (·.1.2), p.2.scache.map (·.1.2))}"; loop h u sh
+  | _ => IO.println s!"bad {f}"; loop h u sh
+def main : IO Unit := do loop (← IO.getStdin) (init false false) (Sh.init false)
 end Drv.World
